@@ -84,7 +84,8 @@ CONSTANTS
     MaxForks,
     Forms,          \* subset of {"cm", "dec", "gen"}
     Kinds,          \* subset of {"opt", "imm", "ddl"}
-    ExcKinds,       \* exceptions a body may raise: subset of {"allowed","retryable","other"}
+    ExcKinds,       \* exceptions a body may raise: subset of {"allowed","retryable","other","base"} ("base": a
+                    \* BaseException that is not an Exception; for the protocol it is like "other": never allowed, never retried)
     Provider,       \* "sqlite" | "generic"
     AllowCrash,     \* BOOLEAN
     ForkInSession,  \* BOOLEAN (D8)
